@@ -91,9 +91,10 @@ class Ctx:
 
 # ------------------------------------------------------------------------------------------ Coq
 
-def coq_files():
+def coq_files(dirs=None):
     out = []
-    for root, _, files in os.walk(COQ):
+    roots = [COQ] if not dirs else [os.path.join(COQ, d) for d in dirs]
+    for root, _, files in [x for r in roots for x in os.walk(r)]:
         for f in files:
             if f.endswith(".v") and not f.startswith("."):
                 out.append(os.path.join(root, f))
@@ -123,10 +124,11 @@ def strip_comments(src):
     return "".join(out)
 
 
-def forbidden_scan():
-    """No Admitted/admit/Axiom/Parameter/..., and no Variable/Hypothesis outside a Section."""
+def forbidden_scan(dirs=None):
+    """No Admitted/admit/Axiom/Parameter/..., and no Variable/Hypothesis outside a Section
+    (in the listed directories of the development, all of it when dirs is None)."""
     bad = []
-    for f in coq_files():
+    for f in coq_files(dirs):
         src = strip_comments(open(f).read())
         stack = []
         for ln, line in enumerate(src.split("\n"), 1):
@@ -252,12 +254,40 @@ def coqchk(ctx, modules, timeout=3000):
         ctx.proof_errors.append("coqchk failed on %s:\n%s" % (modules, (out + err)[-2000:]))
 
 
+class machine_slot:
+    """Machine-wide limit on concurrently running model evaluations (several checks may run at once):
+    one of NSLOTS lock files under /var/tmp is held while a shard is evaluated."""
+    NSLOTS = max(4, NCPU + NCPU // 2)
+
+    def __enter__(self):
+        import random
+        d = "/var/tmp/verif-slots"
+        os.makedirs(d, exist_ok=True)
+        order = list(range(self.NSLOTS))
+        random.shuffle(order)
+        while True:
+            for k in order:
+                f = open(os.path.join(d, "slot%d" % k), "w")
+                try:
+                    fcntl.flock(f, fcntl.LOCK_EX | fcntl.LOCK_NB)
+                    self.f = f
+                    return self
+                except OSError:
+                    f.close()
+            time.sleep(0.05 + random.random() * 0.1)
+
+    def __exit__(self, *a):
+        fcntl.flock(self.f, fcntl.LOCK_UN)
+        self.f.close()
+
+
 def run_shards(ctx, outdir, shards, timeout=900):
     """coqc every cases shard in parallel; return list of mismatching case ids per shard file."""
     res = {}
 
     def one(s):
-        rc, out, err, dt = sh(["coqc", "-Q", COQ, "MV", os.path.join(outdir, s)], cwd=outdir, timeout=timeout)
+        with machine_slot():
+            rc, out, err, dt = sh(["coqc", "-Q", COQ, "MV", os.path.join(outdir, s)], cwd=outdir, timeout=timeout)
         if rc != 0:
             return s, None, (out + err)[-1500:]
         m = re.search(r"Mids\s*=(.*?):\s*list", out, re.S)
@@ -441,7 +471,7 @@ def standard_check(ctx, coq_dirs, properties, harnesses, trusted, design_ref, ch
     sub-harness against REPO, evaluate the recorded runs in Coq, decide, write evidence.
     harnesses: list of dicts {pkg, sub, args?, go?, race?, coq?, timeout?}"""
     ctx.trusted += trusted
-    bad = forbidden_scan()
+    bad = forbidden_scan(sorted(set(["Lib"] + coq_dirs)))
     if bad:
         ctx.proof_errors.append("forbidden constructs: %s" % bad[:5])
     if coq_make(ctx, ["Lib"] + coq_dirs):
